@@ -288,7 +288,7 @@ def replay_mqtt(model, rec):
                 return True, f"in_prefix {pre!r}: {line!r} published as {topic!r} comes back as {back!r}"
             # the ack flag of a received command is decided by the delivery QoS alone (a broker may deliver below
             # the published QoS; the subscriptions ask for QoS 0)
-            for q in (0, 1, 2, None):
+            for q in (0, 1, 2):
                 got = gw.parse_mqtt_to_message(pre + topic, payload, q)
                 f = line.rstrip("\n").split(";")
                 want = ";".join(f[:3] + ["1" if q else "0"] + f[4:])
